@@ -275,6 +275,7 @@ def run_job(job):
         res = bmc.Result()
         bmc.check_window(window, regime["depth"], regime.get("preempt"), regime.get("timeout", 300), res, regime["name"])
         out["queries"], out["solver_s"], out["transitions"], out["states"] = res.queries, res.solver_s, res.transitions, res.states
+        out["max_query_s"], out["query_timeout_s"] = res.max_query_s, regime.get("timeout", 300)
         out["discharged"] = [(w, p, r) for (w, p, r) in res.discharged]
         out["inconclusive"] = list(res.inconclusive)
         clients = built["clients"]
@@ -358,6 +359,8 @@ def run_all(modname, jobs, report, processes=None):
     seen_findings = set()
     slow = sorted(((round(o["solver_s"], 1), round(o.get("wall_s", 0), 1), o["spec"].get("name"), o["regime"]) for o in outs), reverse=True)[:6]
     report.extra.setdefault("slowest_windows_solver_wall_s", []).extend(slow)
+    slowq = sorted(((round(o.get("max_query_s", 0), 1), o.get("query_timeout_s"), o["spec"].get("name"), o["regime"]) for o in outs), reverse=True)[:6]
+    report.extra.setdefault("slowest_single_queries_s_vs_timeout_s", []).extend(slowq)
     for out in outs:
         name = "{0}/{1}".format(out["spec"].get("name"), out["regime"])
         report.count_query("z3-bmc", out["queries"])
